@@ -5,13 +5,13 @@
    One request line = one session on a fresh flatcc_emitter_t; tokens:
      f:<hex>,<hex>,..   front emit of the pieces (offset = current start - len, as the builder would pass)
      b:<hex>,<hex>,..   back emit (offset = current end)
-     r                  flatcc_emitter_reset
+     r                  flatcc_emitter_reset (reply r<number of spare pages kept>)
      y:<i>              flatcc_emitter_recycle_page on the i-th page after E->back (a page not in use)
      Y:<i>              flatcc_emitter_recycle_page on the i-th page counted from E->front (refused for front/back)
      A:<k>              the k-th page allocation from now on fails (0 = the next one)
      o                  observe: state fields, copy_buffer into an exact-size block (bytes at the CALLER's pointer and
                         returned pointer minus caller's pointer), a too-small copy, get_direct_buffer, get_buffer_size
-   Reply: one token per request token, separated by spaces: emit -> rc, r -> "r", y/Y -> rc, A -> "A", o -> "{...}".
+   Reply: one token per request token, separated by spaces: emit -> rc, r -> "r<kept>", y/Y -> rc, A -> "A", o -> "{...}".
    After a failing emit (-1) the session stops: "FAIL" is printed for it, the emitter is cleared, and the line ends with
    live=<pages still allocated after flatcc_emitter_clear>. */
 #include <stdio.h>
@@ -111,7 +111,9 @@ int main(void) {
                 for (k = 0; k < cnt; ++k) free(blocks[k]);
                 if (rc) { printf("FAIL"); failed = 1; } else printf("0");
             } else if (t[0] == 'r' && !t[1]) {
-                flatcc_emitter_reset(&E); start = end = 0; printf("r");
+                flatcc_emitter_reset(&E); start = end = 0;
+                /* the number of pages the reset kept besides the front page: pool policy, passed to the model as its oracle */
+                { int ns = 0; flatcc_emitter_page_t *q; if (E.front) for (q = E.back->next; q != E.front; q = q->next) ++ns; printf("r%d", ns); }
             } else if ((t[0] == 'y' || t[0] == 'Y') && t[1] == ':') {
                 int idx = atoi(t + 2), k; flatcc_emitter_page_t *p;
                 if (!E.front) { printf("nopage"); continue; }
